@@ -112,6 +112,8 @@ func c07UnderExtensions() Harness {
 	return func(c *Ctx) {
 		cfg := cfgs[pick[c.Free("configuration", len(pick))]]
 		ts := uint64(1700000000)
+		// the train id of the assigned trip, as sent: clean, or padded with blanks (both mentions carry the same text)
+		liveTrain := []string{"0L 1010 8AV/RPY", " 0L 1010 8AV/RPY  "}[c.Free("train_id_padded", 2)]
 		nyctTD := func(trip, train string, assigned bool) *gtfsrt.TripDescriptor {
 			td := &gtfsrt.TripDescriptor{TripId: sp(trip), RouteId: sp("L"), StartDate: sp("20231114")}
 			proto.SetExtension(td, gtfsrt.E_NyctTripDescriptor, &gtfsrt.NyctTripDescriptor{TrainId: sp(train), IsAssigned: &assigned, Direction: gtfsrt.NyctTripDescriptor_NORTH.Enum()})
@@ -123,8 +125,8 @@ func c07UnderExtensions() Harness {
 		ents := []*gtfsrt.FeedEntity{
 			{Id: sp("tuStale"), TripUpdate: &gtfsrt.TripUpdate{Trip: nyctTD("060000_L..N", "0L 1000 8AV/RPY", false), StopTimeUpdate: []*gtfsrt.TripUpdate_StopTimeUpdate{stu("L01N", int64(ts)-600), stu("L02N", int64(ts)-300)}}},
 			{Id: sp("vpStale"), Vehicle: &gtfsrt.VehiclePosition{Trip: nyctTD("060000_L..N", "0L 1000 8AV/RPY", false), StopId: sp("L02N"), Timestamp: &ts}},
-			{Id: sp("tuLive"), TripUpdate: &gtfsrt.TripUpdate{Trip: nyctTD("061000_L..N", "0L 1010 8AV/RPY", true), StopTimeUpdate: []*gtfsrt.TripUpdate_StopTimeUpdate{stu("L01N", int64(ts)+60)}}},
-			{Id: sp("vpLive"), Vehicle: &gtfsrt.VehiclePosition{Trip: nyctTD("061000_L..N", "0L 1010 8AV/RPY", true), StopId: sp("L01N"), Timestamp: &ts}},
+			{Id: sp("tuLive"), TripUpdate: &gtfsrt.TripUpdate{Trip: nyctTD("061000_L..N", liveTrain, true), StopTimeUpdate: []*gtfsrt.TripUpdate_StopTimeUpdate{stu("L01N", int64(ts)+60)}}},
+			{Id: sp("vpLive"), Vehicle: &gtfsrt.VehiclePosition{Trip: nyctTD("061000_L..N", liveTrain, true), StopId: sp("L01N"), Timestamp: &ts}},
 			elevEntity(elevAlert{"A27", "N", "1"}, 0),
 		}
 		perm := c.Perm("order", len(ents))
@@ -133,7 +135,7 @@ func c07UnderExtensions() Harness {
 			m.Entity = append(m.Entity, ents[j])
 		}
 		b := marshalFeed(m)
-		c.Input(hash64(cfg.name+string(b)), true, func() string { return cfg.name + " order=" + entityOrder(m) })
+		c.Input(hash64(cfg.name+string(b)), true, func() string { return fmt.Sprintf("%s train id %q order=%s", cfg.name, liveTrain, entityOrder(m)) })
 		c.SetMapMode(mapFree)
 		r, err, ok := parseRT(c, b, cfg.mk())
 		c.SetMapMode(mapFixed)
@@ -147,7 +149,7 @@ func c07UnderExtensions() Harness {
 		c.Steps(len(ents))
 		got := dumpRealtime(r, rtDumpOpts{links: true, sortVehicles: true})
 		c.Outcome(got)
-		c.Relate("entity-order-independence-under-"+cfg.family, cfg.name, got)
+		c.Relate("entity-order-independence-under-"+cfg.family, cfg.name+"|"+liveTrain, got)
 		if strings.Contains(cfg.name, "filterStale=true") {
 			c.Witness("extension_skips_an_entity")
 		}
